@@ -413,7 +413,12 @@ impl<'a> Socket<'a> {
                     }
 
                     let packet = Ipv4Packet::new_unchecked(&*packet.into_inner());
-                    let ipv4_repr = match Ipv4Repr::parse(&packet, _checksum_caps) {
+                    // (The checksum field has just been filled in or left to the device: there is
+                    // nothing in it to verify, whatever the device does for received packets.)
+                    let ipv4_repr = match Ipv4Repr::parse(
+                        &packet,
+                        &crate::phy::ChecksumCapabilities::ignored(),
+                    ) {
                         Ok(x) => x,
                         Err(_) => {
                             net_trace!("raw: malformed ipv4 packet in queue, dropping.");
